@@ -34,6 +34,62 @@ def emit_violation(ctx, f, idx, suffix=""):
     print(f"VIOLATION property={ctx.prop} replay={path}{suffix}", flush=True)
 
 
+TieUnavailable = cm.TieUnavailable
+
+
+def make_resilient(mod, ctx):
+    """A correspondence probe may look at private tables of the implementation (alias tables, memo deques, name-mangled
+    methods) in order to compare them with the model.  When a refactoring renames or removes such a private name the probe
+    cannot run: that is `tie unavailable` for this probe (noted in the evidence, boosted budget for the rest), never an
+    infrastructure error and never a verdict about the property.  Only an AttributeError / ImportError raised BY A HARNESS
+    FRAME about a name starting with one underscore is treated this way; anything raised inside rpylib is left alone."""
+    import functools
+    import inspect
+    import re
+    import types
+    depth = {"n": 0}
+    here = os.path.dirname(os.path.abspath(__file__))
+
+    is_private_miss = cm.private_miss
+
+    def wrap(name, fn):
+        @functools.wraps(fn)
+        def inner(*a, **k):
+            depth["n"] += 1
+            try:
+                return fn(*a, **k)
+            except TieUnavailable:
+                if depth["n"] > 1:
+                    raise
+                return None
+            except (AttributeError, ImportError) as e:
+                priv = is_private_miss(e)
+                if priv is None:
+                    raise
+                msg = f"tie unavailable: probe {mod.__name__.split('.')[-1]}.{name} needs the private name {priv}, which this tree does not have"
+                if msg not in ctx.notes:
+                    ctx.notes.append(msg)
+                ctx.branches[f"tie_unavailable:{name}"] += 1
+                if not ctx.thorough and os.environ.get("VERIF_NO_BOOST") != "1":
+                    ctx.boost = True
+                if depth["n"] > 1:
+                    raise TieUnavailable(msg) from None
+                return None
+            finally:
+                depth["n"] -= 1
+        return inner
+
+    for name, fn in list(vars(mod).items()):
+        if isinstance(fn, types.FunctionType) and fn.__module__ == mod.__name__ \
+                and name not in ("run", "replay", "search", "generate_lean", "measure"):
+            try:
+                params = list(inspect.signature(fn).parameters)
+            except (TypeError, ValueError):
+                continue
+            if params and params[0] == "ctx":
+                setattr(mod, name, wrap(name, fn))
+
+
 def main(argv):
     if len(argv) < 2:
         print(__doc__)
@@ -60,6 +116,7 @@ def main(argv):
     except ModuleNotFoundError as e:
         print(f"no harness for {prop}: {e}")
         return 2
+    make_resilient(mod, ctx)
     evidence_path = cm.EVIDENCE / f"{prop}.json"
     cm.EVIDENCE.mkdir(parents=True, exist_ok=True)
 
